@@ -116,7 +116,13 @@ def modulo(left: float | int, right: float | int) -> float | int:
     try:
         if isinstance(left, int) and isinstance(right, int):
             return left % right
-        return float(decimal.Decimal(str(left)) % decimal.Decimal(str(right)))
+        divisor = decimal.Decimal(str(right))
+        rem = decimal.Decimal(str(left)) % divisor
+        # Decimal's % takes the sign of the dividend. Integer operands (and
+        # the reference implementation) give the remainder the sign of the divisor.
+        if rem and (rem < 0) != (divisor < 0):
+            rem += divisor
+        return float(rem)
     except ZeroDivisionError as err:
         raise LiquidTypeError(
             f"can't divide by {right}",
